@@ -93,6 +93,17 @@ EbErrorType stub_encode_sps_av1(Bitstream *b, SequenceControlSet *scs) {
 EbErrorType stub_output_bitstream_reset(OutputBitstreamUnit *b) { b->buffer_av1 = b->buffer_begin_av1; return EB_ErrorNone; }
 
 #include "Source/Lib/Encoder/Globals/EbEncHandle.c"
+/* C17 frame obligation (alias units U17.2.*, -DU17_FRAME): no per-instance API entry point writes a file-scope object
+ * of EbEncHandle.c — the list of those objects is generated from the file on every run (engine/gen_statics.py) */
+#ifdef U17_FRAME
+#include <string.h>
+#include "statics_EbEncHandle.h"
+#define FRAME_SNAP() STATICS_SNAP()
+#define FRAME_CHECK(w) STATICS_CHECK(w)
+#else
+#define FRAME_SNAP() (void)0
+#define FRAME_CHECK(w) (void)0
+#endif
 
 /* a component as left by svt_av1_enc_init_handle + svt_av1_enc_init: every object the entry points reach */
 static EbComponentType *mk_component(void) {
@@ -120,6 +131,7 @@ static EbComponentType *mk_component(void) {
 
 #ifdef U14_SET_PARAMETER
 void h_set_parameter(void) {
+    FRAME_SNAP();
     V_NONDET(int, null_comp);
     V_NONDET(int, null_cfg);
     EbComponentType *c = null_comp ? NULL : mk_component();
@@ -138,10 +150,12 @@ void h_set_parameter(void) {
         V_ASSERT(g_nheld == 0, "set_parameter: second call returns with the mutex released");
         V_CANARY("second set_parameter returns");
     }
+    FRAME_CHECK("svt_av1_enc_set_parameter");
 }
 #endif
 #ifdef U14_STREAM_HEADER
 void h_stream_header(void) {
+    FRAME_SNAP();
     V_NONDET(int, null_comp);
     V_NONDET(int, null_out);
     EbComponentType *c = null_comp ? NULL : mk_component();
@@ -159,10 +173,12 @@ void h_stream_header(void) {
         V_ASSERT(r == EB_ErrorNone, "stream_header_release accepts what stream_header returned");
     }
     V_ASSERT(IS_ERROR(svt_av1_enc_stream_header_release(NULL)), "stream_header_release(NULL) gives an error code");
+    FRAME_CHECK("svt_av1_enc_stream_header");
 }
 #endif
 #ifdef U14_SEND_PICTURE
 void h_send_picture(void) {
+    FRAME_SNAP();
     V_NONDET(int, null_comp);
     V_NONDET(int, null_buf);
     EbComponentType *c = null_comp ? NULL : mk_component();
@@ -172,10 +188,12 @@ void h_send_picture(void) {
     V_ASSERT(!null_comp || IS_ERROR(e), "send_picture: a NULL handle gives an error code");
     V_ASSERT(null_comp || (g_get_empty == 1 && g_posts_full == 1), "send_picture: takes one empty input buffer and posts it once (NULL picture = end of stream)");
     V_CANARY("send_picture returns");
+    FRAME_CHECK("svt_av1_enc_send_picture");
 }
 #endif
 #ifdef U14_GET_PACKET
 void h_get_packet(void) {
+    FRAME_SNAP();
     V_NONDET(int, null_comp);
     V_NONDET(int, null_out);
     V_NONDET(unsigned char, done);
@@ -193,10 +211,12 @@ void h_get_packet(void) {
     svt_av1_enc_release_out_buffer(&none);
     if (out) svt_av1_enc_release_out_buffer(&out);
     V_CANARY("release_out_buffer returns");
+    FRAME_CHECK("svt_av1_enc_get_packet / release_out_buffer");
 }
 #endif
 #ifdef U14_GET_RECON
 void h_get_recon(void) {
+    FRAME_SNAP();
     V_NONDET(int, null_comp);
     V_NONDET(int, null_buf);
     EbComponentType *c = null_comp ? NULL : mk_component();
@@ -207,6 +227,7 @@ void h_get_recon(void) {
     V_ASSERT(!(null_comp || null_buf) || IS_ERROR(e), "get_recon: a NULL argument gives an error code");
     V_ASSERT(g_blocking_gets == 0, "get_recon never blocks");
     V_CANARY("get_recon returns");
+    FRAME_CHECK("svt_av1_get_recon");
 }
 #endif
 #ifdef U14_MISC
